@@ -72,6 +72,21 @@ let () =
       hex_of_bytes ((if b enc then delta_encode else delta_decode) (n_of_int (int_of_string dist)) (bytes_of_hex d))
     | _ -> "ERR")
 
+let () =
+  (* codehist  I:10011  C:a,ai,ao,inn,outn,rb,ini,iret,iin,iout ... *)
+  reg "codehist" (fun toks ->
+    let ev t =
+      let body = String.sub t 2 (String.length t - 2) in
+      if t.[0] = 'I' then EvInit (List.init (String.length body) (fun i -> body.[i] = '1'))
+      else match List.map int_of_string (String.split_on_char ',' body) with
+        | [a; ai; ao; inn; outn; rb; ini; ir; iu; ou] ->
+          EvCall ({ action = n_of_int a; avail_in = n_of_int ai; avail_out = n_of_int ao; in_null = (inn = 1);
+                    out_null = (outn = 1); reserved_bad = (rb = 1); initialised = (ini = 1) },
+                  { iret = n_of_int ir; iin = n_of_int iu; iout = n_of_int ou })
+        | _ -> failwith "codehist token" in
+    let outs = hist_run hist_start (List.map ev toks) in
+    String.concat " " (List.map (fun l -> if l = [] then "-" else String.concat "," (List.map (fun x -> string_of_int (int_of_n x)) l)) outs))
+
 (* ---- main loop (keep last) ---- *)
 let () =
   try
